@@ -403,6 +403,7 @@ func (w *MyWorld) Dial(ctx context.Context, issuer, target string) (net.Conn, er
 	w.mu.Lock()
 	if w.procDead[issuer] {
 		w.mu.Unlock()
+		time.Sleep(20 * time.Millisecond) // a dead process's leftover goroutines must not spin at one instant
 		return nil, errors.New("process is dead")
 	}
 	if w.decoys[target] {
@@ -934,11 +935,15 @@ func (w *MyWorld) handle(issuer, target string, cs *connState, raw string) *Resu
 		return r
 	}
 	if w.procDead[issuer] {
-		return finish("dead", &Result{Drop: true})
+		r := finish("dead", &Result{Drop: true})
+		time.Sleep(dropLatency)
+		return r
 	}
 	h := w.Hosts[target]
 	if h == nil || !h.Up {
-		return finish("refused", &Result{Drop: true})
+		r := finish("refused", &Result{Drop: true})
+		time.Sleep(dropLatency)
+		return r
 	}
 	if class == "" {
 		w.Unknown = append(w.Unknown, q)
